@@ -54,6 +54,7 @@ type vfProg struct {
 	gas     uint64
 	value   uint64
 	create  bool
+	multi   bool // a callee address may be entered more than once (per-callee monitors do not apply)
 	noexec  bool // only build the pre-state and render it (used for the "nothing changed" monitors)
 }
 
@@ -103,6 +104,10 @@ type vfRes struct {
 	world    string // all known accounts: balance, nonce, code, storage
 	logs     string // logs of the model's format (topics/data) - address included in `logsFull`
 	logsFull string
+	mWorld   string // world in the model's format (decimal addresses)
+	mLogs    string // logs in the model's format
+	created  string // address returned by Create (decimal)
+	precomp  bool   // a precompiled contract was entered (the model answers `unsupported`)
 	ops      [256]bool // opcodes executed (any depth)
 	reached  [256]bool // opcodes fetched (executed or failed in the checks before execution)
 	oog      bool      // some frame ended out-of-gas-like, or an untraced child failure happened
@@ -121,6 +126,15 @@ func (r *vfRes) modelString() string {
 		return fmt.Sprintf("%s ret=%s storage=%s logs=%s gas=%d", r.status, vfHex(r.ret), r.storA, r.logs, r.gasLeft)
 	}
 	return fmt.Sprintf("err %s ret=- storage=%s logs=%s gas=%d", r.class, r.storA, r.logs, r.gasLeft)
+}
+
+// result in the format of the model ops `runw` / `create` (whole world, address-tagged logs)
+func (r *vfRes) modelStringW() string {
+	st := r.status
+	if st == "err" {
+		st = "err " + r.class
+	}
+	return fmt.Sprintf("%s ret=%s world=%s logs=%s gas=%d", st, vfHex(r.ret), r.mWorld, r.mLogs, r.gasLeft)
 }
 
 func (r *vfRes) key() string {
@@ -263,6 +277,9 @@ func (t *vfKTracer) CaptureState(pc uint64, op OpCode, gas, cost uint64, scope *
 	}
 }
 func (t *vfKTracer) CaptureEnter(typ OpCode, from common.Address, to common.Address, input []byte, gas uint64, value *big.Int) {
+	if _, ok := PrecompiledContractsV0[to]; ok {
+		t.r.precomp = true
+	}
 	t.frames = append(t.frames, to)
 }
 func (t *vfKTracer) CaptureExit(output []byte, gasUsed uint64, err error) {
@@ -381,7 +398,9 @@ func vfRunKVM(o *vfOut, p *vfProg, post bool, static bool) *vfRes {
 		switch {
 		case p.noexec:
 		case p.create:
-			ret, _, left, err = vmenv.Create(AccountRef(origin), p.code, p.gas, new(big.Int).SetUint64(p.value))
+			var ca common.Address
+			ret, ca, left, err = vmenv.Create(AccountRef(origin), p.code, p.gas, new(big.Int).SetUint64(p.value))
+			r.created = new(big.Int).SetBytes(ca[:]).String()
 		case static:
 			ret, left, err = vmenv.StaticCall(AccountRef(origin), addrA, p.input, p.gas)
 		default:
@@ -408,7 +427,7 @@ func vfRunKVM(o *vfOut, p *vfProg, post bool, static bool) *vfRes {
 		addrs = append(addrs, a)
 	}
 	sort.Slice(addrs, func(i, j int) bool { return bytes.Compare(addrs[i][:], addrs[j][:]) < 0 })
-	var w []string
+	var w, mw []string
 	for _, a := range addrs {
 		var kvs []vfKV
 		for k := range st.touched[a] {
@@ -426,13 +445,15 @@ func vfRunKVM(o *vfOut, p *vfProg, post bool, static bool) *vfRes {
 			continue // never created, or creation reverted, or merely touched
 		}
 		code := db.GetCode(a)
+		mw = append(mw, fmt.Sprintf("%s{b=%s n=%d c=%d s=%s}", new(big.Int).SetBytes(a[:]), db.GetBalance(a), db.GetNonce(a), len(code), s))
 		w = append(w, fmt.Sprintf("%x{b=%s n=%d c=%d:%x s=%s x=%v}", a[:], db.GetBalance(a), db.GetNonce(a), len(code), vfSum(code), s, db.HasSuicided(a)))
 	}
 	if r.storA == "" {
 		r.storA = "-"
 	}
 	r.world = strings.Join(w, " ")
-	var ls, lf []string
+	r.mWorld = strings.Join(mw, " ")
+	var ls, lf, lm []string
 	for _, l := range db.Logs() {
 		ts := make([][32]byte, len(l.Topics))
 		for i, t := range l.Topics {
@@ -441,10 +462,11 @@ func vfRunKVM(o *vfOut, p *vfProg, post bool, static bool) *vfRes {
 		txt := vfLogText(ts, l.Data)
 		ls = append(ls, txt)
 		lf = append(lf, fmt.Sprintf("%x:%s", l.Address[19:], txt))
+		lm = append(lm, fmt.Sprintf("%s:%s", new(big.Int).SetBytes(l.Address[:]), txt))
 	}
-	r.logs, r.logsFull = "-", "-"
+	r.logs, r.logsFull, r.mLogs = "-", "-", "-"
 	if len(ls) > 0 {
-		r.logs, r.logsFull = strings.Join(ls, ","), strings.Join(lf, ",")
+		r.logs, r.logsFull, r.mLogs = strings.Join(ls, ","), strings.Join(lf, ","), strings.Join(lm, ",")
 	}
 	return r
 }
@@ -725,7 +747,10 @@ func vfModelOp(p *vfProg, post, static bool) string {
 // opcodes the single-frame Lean model does not interpret (it answers `unsupported` when it reaches
 // one of them after the stack / static / gas checks ... the harness simply does not ask).
 func vfModelSupports(r *vfRes) bool {
-	for _, op := range []byte{0x31, 0x3b, 0x3c, 0x3d, 0x3e, 0x3f, 0x40, 0x47, 0xf0, 0xf1, 0xf2, 0xf4, 0xf5, 0xfa, 0xff} {
+	if r.precomp {
+		return false
+	}
+	for _, op := range []byte{0x31, 0x3b, 0x3c, 0x3d, 0x3e, 0x3f, 0x40, 0x47, 0xf0, 0xf2, 0xf4, 0xf5, 0xff} {
 		if r.reached[op] {
 			return false
 		}
@@ -1346,6 +1371,10 @@ func vfEmitCall(r *vfRand, a *vfAsm, to byte, callOp byte) {
 
 func vfGenNested(r *vfRand) *vfProg {
 	ops := []byte{0xf1, 0xf1, 0xf1, 0xfa, 0xf4, 0xf2}
+	modelOnly := r.Chance(60) // only what the Lean model interprets: CALL / STATICCALL, no RETURNDATA*
+	if modelOnly {
+		ops = []byte{0xf1, 0xf1, 0xfa}
+	}
 	opAB := ops[r.Intn(len(ops))]
 	opBC := ops[r.Intn(len(ops))]
 	aux := map[byte][]byte{}
@@ -1365,8 +1394,19 @@ func vfGenNested(r *vfRand) *vfProg {
 		to = byte(1 + r.Intn(9)) // precompile (9 does not exist)
 	}
 	vfEmitCall(r, a, to, opAB)
-	a.pushU(2).op(0x55)                                // success flag -> slot 2
-	a.op(0x3d).pushU(3).op(0x55)                       // RETURNDATASIZE -> slot 3
+	a.pushU(2).op(0x55) // success flag -> slot 2
+	if modelOnly {
+		a.pushU(64).op(0x51).pushU(3).op(0x55) // first word of the output area -> slot 3
+		multi := false
+		if r.Chance(30) { // a second call (re-entrancy / repeated callee)
+			multi = true
+			vfEmitCall(r, a, byte(r.Pick(int(vfAddrB), int(vfAddrA), int(vfAddrC), 0x77)), ops[r.Intn(len(ops))])
+			a.pushU(4).op(0x55)
+		}
+		a.pushU(128).pushU(0).op(byte(r.Pick(0xf3, 0xf3, 0xfd)))
+		return &vfProg{kind: "nested", multi: multi, code: a.bytes(), aux: aux, input: vfGenInput(r), storage: vfGenStorage(r), gas: uint64(r.Pick(3000000, 3000000, 150000, 60000)), value: uint64(r.Intn(2) * 50)}
+	}
+	a.op(0x3d).pushU(3).op(0x55) // RETURNDATASIZE -> slot 3
 	if r.Chance(85) {
 		a.op(0x3d).pushU(0).pushU(96).op(0x3e) // RETURNDATACOPY(96, 0, RETURNDATASIZE)
 	} else {
@@ -1537,7 +1577,7 @@ func vfOneProgram(o *vfOut, p *vfProg, withModel bool) {
 				nontrivial = true
 			}
 			// nested failed frames leave no trace (callee addresses are called at most once)
-			if p.kind == "nested" && len(r1.failed) > 0 && r1.status == "ok" {
+			if p.kind == "nested" && !p.multi && len(r1.failed) > 0 && r1.status == "ok" {
 				for _, b := range r1.failed {
 					if b == vfAddrB || b == vfAddrC {
 						for _, l := range strings.Split(r1.logsFull, ",") {
@@ -1559,12 +1599,25 @@ func vfOneProgram(o *vfOut, p *vfProg, withModel bool) {
 				}
 			}
 			// model
-			if withModel && !p.create && len(p.aux) == 0 {
-				if vfModelSupports(r1) {
+			if withModel {
+				switch {
+				case !vfModelSupports(r1):
+					o.Stat("model.unsupported-op")
+				case p.create:
+					o.Op(model, fmt.Sprintf("create set=%s gas=%d value=%d addr=%s code=%s", vfSetName(post), p.gas, p.value, r1.created, vfHex(p.code)), r1.modelStringW())
+					o.Stat("model.compared-create")
+				case len(p.aux) > 0 || r1.reached[0xf1] || r1.reached[0xfa]:
+					op := "runw" + strings.TrimPrefix(vfModelOp(p, post, static), "run")
+					for _, b := range []byte{vfAddrB, vfAddrC} {
+						if c, ok := p.aux[b]; ok {
+							op += fmt.Sprintf(" aux%x=%s", b, vfHex(c))
+						}
+					}
+					o.Op(model, op, r1.modelStringW())
+					o.Stat("model.compared-nested")
+				default:
 					o.Op(model, vfModelOp(p, post, static), r1.modelString())
 					o.Stat("model.compared")
-				} else {
-					o.Stat("model.unsupported-op")
 				}
 			}
 			// reference EVM
